@@ -9,15 +9,17 @@ import "sync"
 // in safe and unsafe mode, whatever the introducer/persister/merger are doing
 // at that moment; a Reader held across a later batch keeps its content.
 //
-// vf:harness property=C05 cases=unsafe:0..1 sched=1 schedbudget=1 schedbudget.thorough=2 preempt=1 preempt.thorough=2 schedtotal=1 schedtotal.thorough=2 goinline=1 chanslack=8 deadlock=violation clock=zero maxpaths=400000 replay=model-only diff=off
+// vf:harness property=C05 cases=unsafe:0..1;order:0..1 cases.thorough=unsafe:0..1;order:0..2 sched=1 schedbudget=1 schedbudget.thorough=2 preempt=1 preempt.thorough=2 schedtotal=1 schedtotal.thorough=2 goinline=1 chanslack=8 deadlock=violation clock=zero maxpaths=400000 replay=model-only diff=off
 // vf:replace hash/crc32.Update vfChecksumUpdate
 // vf:replace io.CopyN vfCopyN
 // vf:replace (*github.com/RoaringBitmap/roaring.Bitmap).ReadFrom vfRoaringReadFrom
 // vf:replace (*github.com/RoaringBitmap/roaring.Bitmap).ToBytes vfRoaringToBytes
-// vf:bounds one caller: update id 1, reader, overwrite id 1, reader (arbitrary payloads), safe and unsafe batch mode, fresh model directory; the real OpenWriter/Batch/loops as cooperative goroutines; at most schedtotal departures from the default schedule anywhere along the run, each either another runnable goroutine at a blocking point (at most schedbudget of them) or a switch before a synchronisation operation — channel operation, Lock/Unlock, WaitGroup, Once — although the running goroutine could continue (at most preempt of them)
-// vf:assume sequentially consistent goroutines that switch only at synchronisation operations (sufficient for data-race-free code; races are C15's subject and outside); model directory and segment plugin; CRC-32 and roaring codec replaced by models; time.After fires immediately, elapsed times (statistics only) read as zero
-func VF_C05_ReaderAfterBatch(unsafe int) {
+// vf:bounds default schedule: lowest goroutine id first or longest-waiting first (FIFO), thorough also highest id first; one caller: update id 1, reader, overwrite id 1, reader (arbitrary payloads), safe and unsafe batch mode, fresh model directory; the real OpenWriter/Batch/loops as cooperative goroutines; at most schedtotal departures from the default schedule anywhere along the run, each either another runnable goroutine at a blocking point (at most schedbudget of them) or a switch before a synchronisation operation — channel operation, Lock/Unlock, WaitGroup, Once — although the running goroutine could continue (at most preempt of them)
+// vf:assume sequentially consistent goroutines that switch at synchronisation operations and I/O seams (directory Persist/Remove, plugin Merge) (sufficient for data-race-free code; races are C15's subject and outside); model directory and segment plugin; CRC-32 and roaring codec replaced by models; time.After fires immediately, elapsed times (statistics only) read as zero
+func VF_C05_ReaderAfterBatch(unsafe int, order int) {
+	vfSchedOrder(order)
 	dir := vfNewDir()
+	dir.seams = true
 	w, err := OpenWriter(vfLiveConfig(dir, unsafe == 1))
 	vfAssert(err == nil && w != nil, "OpenWriter succeeds on an empty directory")
 	p1, p2 := vfByte("payload"), vfByte("payload")
@@ -45,15 +47,17 @@ func VF_C05_ReaderAfterBatch(unsafe int) {
 // the other's document after its own acknowledgement was overwritten, so the
 // final document is the other's.
 //
-// vf:harness property=C05 cases=unsafe:0..1 sched=1 schedbudget=1 schedbudget.thorough=2 preempt=1 preempt.thorough=1 schedtotal=1 schedtotal.thorough=2 goinline=1 chanslack=8 deadlock=violation clock=zero maxpaths=400000 replay=model-only diff=off
+// vf:harness property=C05 cases=unsafe:0..1;order:0..1 cases.thorough=unsafe:0..1;order:0..2 sched=1 schedbudget=1 schedbudget.thorough=2 preempt=1 preempt.thorough=1 schedtotal=1 schedtotal.thorough=2 goinline=1 chanslack=8 deadlock=violation clock=zero maxpaths=400000 replay=model-only diff=off
 // vf:replace hash/crc32.Update vfChecksumUpdate
 // vf:replace io.CopyN vfCopyN
 // vf:replace (*github.com/RoaringBitmap/roaring.Bitmap).ReadFrom vfRoaringReadFrom
 // vf:replace (*github.com/RoaringBitmap/roaring.Bitmap).ToBytes vfRoaringToBytes
-// vf:bounds two caller goroutines, one update of the same id each with arbitrary distinct payloads, then a reader each; safe and unsafe mode; schedule bounds as VF_C05_ReaderAfterBatch
+// vf:bounds default schedule: lowest goroutine id first or longest-waiting first (FIFO), thorough also highest id first; two caller goroutines, one update of the same id each with arbitrary distinct payloads, then a reader each; safe and unsafe mode; schedule bounds as VF_C05_ReaderAfterBatch
 // vf:assume as VF_C05_ReaderAfterBatch
-func VF_C05_ConflictingWriters(unsafe int) {
+func VF_C05_ConflictingWriters(unsafe int, order int) {
+	vfSchedOrder(order)
 	dir := vfNewDir()
+	dir.seams = true
 	w, err := OpenWriter(vfLiveConfig(dir, unsafe == 1))
 	vfAssert(err == nil && w != nil, "OpenWriter succeeds on an empty directory")
 	pay := [2]byte{vfByte("payload"), vfByte("payload")}
